@@ -40,7 +40,34 @@ CELLS = {
     'numeric': ['007', '1.50', '1e5', '-3', '42'],
     'empty': [''],
     'padded': [' lead', 'trail ', '\tboth\t', '  '],
+    'sniffer_bait': ['"Veni"; "vidi"; "vici"', "'Bobby'", "'x';'y'", 'a|b|c'],
 }
+
+
+def sniffed_alternative(path, delim_opt, true_delim):
+    """Alternative model for mis-parsed files: the CSV dialect tabulator derives with csv.Sniffer from the first lines
+    (exactly as tabulator.parsers.csv does) and the table that dialect yields. -> (differs_from_writer, header, rows)"""
+    import csv
+    import io
+    text = open(path, encoding='utf-8', newline='').read()
+    lines = io.StringIO(text, newline=None).readlines()[:100]      # tabulator feeds text lines (universal newlines)
+    try:
+        dialect = csv.Sniffer().sniff(''.join(lines), delim_opt or ',\t;|')
+        if not dialect.escapechar:
+            dialect.doublequote = True
+    except csv.Error:
+        class dialect(csv.excel):
+            pass
+    if delim_opt:
+        dialect.delimiter = delim_opt
+    differs = (dialect.delimiter != true_delim or dialect.quotechar != '"' or bool(dialect.skipinitialspace)
+               or not dialect.doublequote)
+    try:
+        table = list(csv.reader(io.StringIO(text, newline=None), dialect))
+    except csv.Error:
+        return differs, None, None
+    table = [r for r in table if r]
+    return differs, (table[0] if table else []), table[1:]
 
 
 def gen_cases(tier, seed):
@@ -179,7 +206,32 @@ def run_case(case):
                                                  ('lt' if limit < nrows else 'ge'), hclass)] = 1
     got = lab.run([d.load(path, **kw)], via='datastream')
 
-    def add(kind, msg, mech=None):
+    def add(kind, msg, mech=None, at=None):
+        # a mis-parse that the dialect csv.Sniffer derives from this very file reproduces is named as such
+        if kind in ('headers', 'row_count', 'cell', 'row_keys', 'unexpected_error') and mech != 'leading_space_lost_sniffed_dialect':
+            try:
+                differs, ah, ar = sniffed_alternative(path, kw.get('delimiter'), delim)
+                if differs and ah is not None and got.ok:
+                    onames = [f['name'] for f in got.dp['resources'][0]['schema']['fields']]
+                    if kw.get('deduplicate_headers'):
+                        same_header = len(onames) == len(ah)
+                    else:
+                        same_header = onames == [h.strip() for h in ah]
+                    n_alt = len(ar) if limit is None else min(limit, len(ar))
+                    ok_alt = same_header and (fam == 'cast_schema' or len(got.results[0]) == n_alt)
+                    if ok_alt and kind == 'cell' and at is not None:
+                        i_, col_ = at
+                        cell = ar[i_][col_] if i_ < len(ar) and col_ < len(ar[i_]) else None
+                        if cell is not None and strip:
+                            cell = cell.strip()
+                        gv_ = got.results[0][i_].get(onames[col_]) if i_ < len(got.results[0]) else None
+                        ok_alt = (cell == gv_) or (cell in ('', None) and gv_ in ('', None)) or str(cell) == str(gv_)
+                    if ok_alt:
+                        mech = 'sniffed_dialect_misparse'
+                elif differs and not got.ok and kind == 'unexpected_error':
+                    mech = 'sniffed_dialect_misparse'
+            except Exception:
+                pass
         viol.append({'kind': kind, 'mech': mech or fam, 'msg': '%r: %s' % (cfg, msg), 'config': cfg})
     # duplicate header expectations
     cs = kw.get('deduplicate_headers_case_sensitive', True)
@@ -295,7 +347,8 @@ def run_case(case):
                     # only the leading blanks are gone although strip=False: the CSV dialect was sniffed with
                     # skipinitialspace=True (tabulator / csv.Sniffer on a small sample)
                     mech = 'leading_space_lost_sniffed_dialect'
-                add('cell', 'row %d field %r: got %r expected %r (strip=%s)' % (i, n, gv, ev, strip), mech)
+                add('cell', 'row %d field %r: got %r expected %r (strip=%s)' % (i, n, gv, ev, strip), mech,
+                    at=(i, names.index(n)))
                 stop = True
                 break
         if stop:
